@@ -11,6 +11,21 @@ claimed = {
    'Every reachable state of small closed alphabets (insert/delete over finite key and value universes, persist, persist+reload, cached reads) is visited on the real code and compared with a sorted-map model after every transition; closure (empty frontier) is reached for most configurations, the rest report the depth completed. Covers all key types, value types incl. uncomparable and nil, branch factors 2/3/4/16, both node formats, cache none/big/evicting.',
    'Finite universes (<=9 keys, <=2 values per configuration); state merging relies on the dump hook being a faithful image of the heap (checked: double replay, exact-vs-reduced key cross-check); Go runtime and encoding/json trusted.',
    'DESIGN.md 3.3, 3.4, C01'),
+ 'C02': ('W', 'model_checking', 'closure x bounded fan-out: every single-tree state x every capture (clone, retained root reloaded with/without cache, cursor) x every continuation of <=L operations, explicit-state on the real implementation',
+   'Base states are the full single-tree closure (or every persisted version of an 8-key height-2 universe); for every base and capture, all continuations of length <=2 (3 thorough) over all live trees are explored with de-duplication on the heap dump. After every transition, trees the operation did not target must read exactly as before; in every distinct state every retained root is reloaded with and without the cache and the cursor is walked. Cache none, big, evicting (capacity 1 and 2).',
+   'Continuations longer than L after a capture and more than 3 live trees are outside the bound; contents are read by per-key Get over the finite universe.', 'DESIGN.md 3.4, C02'),
+ 'C06': ('W', 'model_checking', 'explicit-state closure to enumerate tree states, then exhaustive enumeration of all ordered pairs of states plus related (clone/reload + <=2 ops) pairs; oracle = merge of the two trees actual contents',
+   'Every ordered pair (old,new) of reachable single-tree states (fresh, emptied, in-memory, persisted, mixed; equal and different heights) plus old=nil is diffed with DiffIter, StartDiff/NextEntry, and DiffIter stopped or failed at every callback index; related pairs share in-memory nodes.',
+   'Finite universes (4-5 keys for the pair product); quick tier samples base states for the related fan-out by a fixed stride (reported).', 'DESIGN.md C06'),
+ 'C07': ('W', 'model_checking', 'exhaustive enumeration of all ordered pairs of persisted versions of a finite universe on the real implementation; oracle = reach sets from an independent store walker + replica load',
+   'All ordered pairs of all versions (every subset of the keys x values, heights 0-3, empty versions, pass-through nodes via user keys): DiffLinks events compared with reach(new)-reach(old) and reach(old)-reach(new) from the reference walker (superset of the difference, inside the respective version, no name twice), then LoadMast(new) + full read from a fresh store holding only reach(old) + added.',
+   'Finite universes (<=9 keys quick, 11 thorough).', 'DESIGN.md C07'),
+ 'C10': ('W', 'model_checking', 'explicit-state closure over tree states; in every state an inner exhaustive BFS over cursor placements and Forward/Backward step sequences de-duplicated on the dumped cursor path; SeekIter from every probe',
+   'For every reachable tree state: Min, Max, Ceil(p) for every universe key and absent probe, then every sequence of Forward/Backward steps until stepping off an end, Get compared with the position in the sorted key list; SeekIter(p) for every probe with early stop at every position. Branch factors 2,3,4,16, user keys with adversarial layers, empty and emptied trees.',
+   'Finite universes; behaviour after stepping off an end is not judged (not specified).', 'DESIGN.md C10'),
+ 'C15': ('W', 'model_checking', 'exhaustive enumeration of all ordered pairs of persisted versions on cache-less recording stores; oracle = distinct Load names vs 2*D+2',
+   'For all ordered pairs of all versions of the universe, the distinct names passed to Persist.Load during DiffIter and DiffLinks are counted and compared with 2*D+2 (D from the reference walker); identical versions must load nothing.',
+   'Finite universes; thorough adds larger seeded trees with single/two-key modifications.', 'DESIGN.md C15'),
  'C04': ('W', 'model_checking', 'explicit-state BFS to closure on the real implementation; oracle = independently built canonical Merkle search tree, encoded and hashed independently',
    'At every MakeRoot transition of every reachable state the returned Root (link, height, size) is compared with the root of the canonical tree that the reference builder constructs from the entries the tree actually holds (layers and height rule re-derived from the definition, independent codec and BLAKE2b). All histories of the alphabet ending in the same contents are thereby compared with each other and with the reference.',
    'Finite universes; all 4^5 layer assignments of a user Key type in the thorough tier, 8 representative ones in quick; reference builder/codec/hash are the trusted side.', 'DESIGN.md C04'),
